@@ -3358,7 +3358,7 @@ class sptensor:
                 newsubs = self.subs[idxSelf, :]
                 newvals = self.vals[idxSelf] / other.vals[idxOther]
             else:
-                newsubs = np.empty((0, len(self.shape)))
+                newsubs = np.empty((0, len(self.shape)), dtype=int)
                 newvals = np.empty((0, 1))
 
             # Self nonzero and other zero
